@@ -150,3 +150,44 @@ def fresh(name):
     if name in ("basic", "list"):
         return get(name)
     return _BUILDERS[name]()
+
+
+def twin_of(schema):
+    """A second tenant's schema for the same process: same node and mark *names* as `schema`, but
+    marks declared in the opposite order (other ranks), every other unrestricted textblock type
+    admitting only the first half of the mark types, and integer attribute defaults shifted by one.
+    Any library state keyed by names instead of by schema objects gives wrong answers for one of
+    the two tenants."""
+    spec = schema.spec
+    nodes = {k: dict(v) for k, v in dict(spec["nodes"]).items()}
+    marks = {k: dict(v) for k, v in dict(spec.get("marks") or {}).items()}
+    mnames = list(marks)
+    keep = mnames[: max(1, len(mnames) // 2)]
+    i = 0
+    for name, n in nodes.items():
+        content = n.get("content") or ""
+        if mnames and ("inline" in content or "text" in content) and "marks" not in n:
+            if i % 2 == 0:
+                n["marks"] = " ".join(keep)
+            i += 1
+        if n.get("attrs"):
+            attrs = {}
+            for a, d in n["attrs"].items():
+                d = dict(d)
+                if "default" in d and isinstance(d["default"], int) and not isinstance(d["default"], bool):
+                    d["default"] = d["default"] + 1
+                attrs[a] = d
+            n["attrs"] = attrs
+    tmarks = {k: marks[k] for k in reversed(mnames)}
+    return Schema({"nodes": nodes, "marks": tmarks})
+
+
+_twins = {}
+
+
+def twin(name):
+    """cached twin of the cached schema `name` (used only to draw the tenant's initial document)"""
+    t = _twins.get(name)
+    if t is None:
+        t = _twins[name] = twin_of(get(name))
+    return t
